@@ -42,6 +42,8 @@ type LoopSpec struct {
 	Hints  []*E
 	After    []*E // proved on every edge leaving the loop (loop postcondition)
 	AfterSrc []string
+	Step     []*E // proved on every back edge; prev_<name> is the value of <name> at the loop head of this iteration
+	StepSrc  []string
 }
 
 type CallSpec struct { // "at call <callee>#k: requires e" / "hint e"
@@ -164,7 +166,7 @@ func readDirectives(path string, prefixed bool) ([]string, []int, error) {
 
 var reSpecFunc = regexp.MustCompile(`^(?:pure|opaque)\s+func\s+(\w+)\s*\(([^)]*)\)\s*([^=]*?)\s*(?:=\s*(.*))?$`)
 var reFuncHdr = regexp.MustCompile(`^(func|extern)\s+(\S+?)(?:\s*\(([^)]*)\)\s*(?:\(([^)]*)\))?)?\s*$`)
-var reLoop = regexp.MustCompile(`^loop\s+(\d+)\s*:\s*(invariant|decreases|hint|after)\s+(.*)$`)
+var reLoop = regexp.MustCompile(`^loop\s+(\d+)\s*:\s*(invariant|decreases|hint|after|step)\s+(.*)$`)
 var reAtCall = regexp.MustCompile(`^at\s+call\s+(\S+?)#(\d+)\s*:\s*(requires|hint|bind|ghost_after|ghost)\s+(.*)$`)
 
 func parseParams(s string) []QVar {
@@ -563,6 +565,9 @@ func (ss *SpecSet) loadSpecFile(path string, prefixed bool, pkgDir string) error
 				case "after":
 					ls.After = append(ls.After, e)
 					ls.AfterSrc = append(ls.AfterSrc, m[3])
+				case "step":
+					ls.Step = append(ls.Step, e)
+					ls.StepSrc = append(ls.StepSrc, m[3])
 				}
 			case strings.HasPrefix(d, "at "):
 				m := reAtCall.FindStringSubmatch(d)
